@@ -89,6 +89,9 @@ std::string uri_text(Rng& r, const TextCfg& c) {
     }
     if ((int)t.size() > c.max_len && !c.long_mode) t.resize((size_t)c.max_len);
     for (auto& ch : t) if (ch == 0) ch = 'x';
+    // rarely: a NUL byte inside the range, or (wide build) a code point above 255 whose low byte looks like ASCII
+    if (r.chance(25) && !t.empty()) t[r.below((uint32_t)t.size())] = '\0';
+    if (r.chance(40)) { std::string esc; esc += (char)0x1F; esc += (char)('0' + r.below(14)); t.insert(t.empty() ? 0 : r.below((uint32_t)t.size() + 1), esc); }
     return t;
 }
 
@@ -229,6 +232,7 @@ void query_items(Rng& r, Op& mk, int max_items, int max_len) {
     for (int i = 0; i < n; i++) {
         auto mkstr = [&]() {
             std::string s; int parts = r.range(0, 3);
+            if (r.chance(12)) { int n = r.range(180, 420); for (int k = 0; k < n; k++) s += (char)('a' + k % 26); return s; }   // rarely: long, mostly unescaped text
             for (int k = 0; k < parts; k++) {
                 if (r.chance(150)) s += (char)r.range(1, 255); else s += r.pick(kQParts);
             }
